@@ -32,6 +32,7 @@ type Network struct {
 	Refuse func(from, to string) bool
 	Dials  int
 	Resets int
+	tick   uint64
 }
 
 func New() *Network { return &Network{listeners: map[string]*Listener{}} }
@@ -130,6 +131,8 @@ type pipeEnd struct {
 	resetErr bool
 	rdl, wdl time.Time
 	lastDue  time.Time
+	outq     []pendingChunk
+	armed    bool
 }
 
 func (n *Network) pair(from, to string) (*pipeEnd, *pipeEnd) {
@@ -249,19 +252,58 @@ func (p *pipeEnd) Write(b []byte) (int, error) {
 		delay = n.Delay(p.local, p.remote)
 	}
 	data := append([]byte(nil), b...)
-	if delay <= 0 && p.lastDue.IsZero() {
+	if delay <= 0 && !p.armed && len(p.outq) == 0 {
 		p.mu.Unlock()
 		p.deliver(data)
 		return len(b), nil
 	}
-	due := time.Now().Add(delay)
+	// a unique sub-microsecond offset per chunk: deliveries never tie with each other on the fake clock
+	// (the order in which timers with equal deadlines fire is the runtime's, not the schedule's)
+	n.mu.Lock()
+	n.tick++
+	off := time.Duration(n.tick%997) * time.Nanosecond
+	n.mu.Unlock()
+	due := time.Now().Add(delay + off)
 	if due.Before(p.lastDue) {
 		due = p.lastDue // FIFO per direction
 	}
 	p.lastDue = due
+	// one delivery chain per direction: timers with equal deadlines fire in no particular order, so
+	// every chunk goes through a queue that is drained in order
+	p.outq = append(p.outq, pendingChunk{due: due, data: data})
+	arm := !p.armed
+	p.armed = true
 	p.mu.Unlock()
-	time.AfterFunc(time.Until(due), func() { p.deliver(data) })
+	if arm {
+		time.AfterFunc(time.Until(due), p.drain)
+	}
 	return len(b), nil
+}
+
+type pendingChunk struct {
+	due  time.Time
+	data []byte
+}
+
+func (p *pipeEnd) drain() {
+	for {
+		p.mu.Lock()
+		if len(p.outq) == 0 {
+			p.armed = false
+			p.lastDue = time.Time{}
+			p.mu.Unlock()
+			return
+		}
+		head := p.outq[0]
+		if d := time.Until(head.due); d > 0 {
+			p.mu.Unlock()
+			time.AfterFunc(d, p.drain)
+			return
+		}
+		p.outq = p.outq[1:]
+		p.mu.Unlock()
+		p.deliver(head.data)
+	}
 }
 
 func (p *pipeEnd) Close() error {
